@@ -140,7 +140,54 @@ def memory_probe(ctx, nbuf):
             out.oracle_fail("memory-probe", inp, f"streaming peak {peak_st} B exceeds {limit} B for fragment/gap {nbuf} buffers long")
 
 
+def long_line_probe(ctx):
+    """output line length far above the buffer size: no single write to the output handle and no allocation may exceed the
+    buffer size (the consumer must not collect a line before writing it); bytes must still equal the reference"""
+    import io
+    from tola.fasta.stream import FastaStream
+    from tola.assembly.scaffold import Scaffold
+    from tola.assembly.fragment import Fragment
+    from tola.assembly.gap import Gap
+    import tola.fasta.index as ix
+    out = ctx.out
+    bs, n = 1000, 400_000
+    seq = (b"ACGTTGCA" * 125) * (n // 1000)
+    with F.Scratch() as sc:
+        p = sc.path / "long.fa"
+        with p.open("wb") as fh:
+            fh.write(b">big\n")
+            for i in range(0, n, 60):
+                fh.write(seq[i:i + 60] + b"\n")
+        idx, _ = ix.index_fasta_file(p, bs)
+        for w in (10**9, 70, 59):
+            fai = ix.FastaIndex(p, bs); fai.index = idx
+
+            class Sink(io.RawIOBase):
+                def __init__(self): self.n = 0; self.maxw = 0
+                def write(self, b): self.n += len(b); self.maxw = max(self.maxw, len(b)); return len(b)
+            sink = Sink()
+            big = Scaffold("o", [Fragment("big", 1, n, 1), Gap(50_000, "scaffold"), Fragment("big", 1, n, -1)])
+            tracemalloc.start()
+            try:
+                FastaStream(sink, fai, line_length=w).write_scaffold(big)
+                _, peak = tracemalloc.get_traced_memory()
+            finally:
+                tracemalloc.stop()
+            fai.fasta_fileandle.close()
+            inp = {"buffer_size": bs, "line_length": w, "residues": 2 * n + 50_000}
+            out.case("long-line-probe", inp, ("longline", w))
+            body = 2 * n + 50_000
+            expect = 3 + body + ((body + w - 1) // w)
+            if sink.n != expect:
+                out.oracle_fail("long-line-probe", inp, f"{sink.n} bytes written, expected {expect}")
+            if sink.maxw > bs + 1:
+                out.oracle_fail("long-line-probe", inp, f"a single write of {sink.maxw} bytes exceeds the buffer size {bs}: the writer accumulated output")
+            if peak > 8 * bs + 65536:
+                out.oracle_fail("long-line-probe", inp, f"streaming peak {peak} B with buffer {bs} and line length {w}")
+
+
 def run(ctx):
+    long_line_probe(ctx)
     n = 6 if ctx.thorough else 1
     check(ctx, "buffers", [gen(ctx.rng) for _ in range(120 * n)])
     memory_probe(ctx, 300 if ctx.thorough else 120)
